@@ -41,6 +41,14 @@ RecAddDefinition(be_val, [_s, _lo, _n], If(_n <= 0, IntVal(0), 256 * be_val(_s, 
 b128_val = RecFunction('b128_val', S, I, I, I)
 RecAddDefinition(b128_val, [_s, _lo, _n], If(_n <= 0, IntVal(0), 128 * b128_val(_s, _lo, _n - 1) + _s[_lo + _n - 1] % 128))
 
+# concatenation of the base-128 encodings (X.690 8.19.2) of the n elements of s starting at lo
+b128cat = RecFunction('b128cat', S, I, I, S)
+RecAddDefinition(b128cat, [_s, _lo, _n],
+                 If(_n <= 0, Empty(S), Concat(b128cat(_s, _lo, _n - 1),
+                                              Concat(b128hi(_s[_lo + _n - 1] / 128), Unit(_s[_lo + _n - 1] % 128)))))
+
+nonneg = Function('nonneg', S, z3.BoolSort())
+
 # bit_length: uninterpreted + the defining inequalities (CPython docs: for nonzero x,
 # 2**(k-1) <= abs(x) < 2**k), instantiated per use (A-BUILTIN)
 bit_length_f = Function('bit_length', I, I)
@@ -97,6 +105,11 @@ class XNS:
         return val256(z_of(s))
 
     @staticmethod
+    def b128cat(ex, s, lo, n):
+        """b128(s[lo]) + ... + b128(s[lo+n-1]): subidentifier octets of consecutive arcs (X.690 8.19)"""
+        return any_(b128cat(z_of(s), toint(lo), toint(n)))
+
+    @staticmethod
     def be_val(ex, s, lo, n):
         """value of s[lo:lo+n] read as a big-endian base-256 number"""
         return be_val(z_of(s), toint(lo), toint(n))
@@ -131,6 +144,11 @@ class XNS:
         return ForAll([i], Implies(And(i >= 0, i < Length(c)),
                                    And(Or(c[i] == 0, c[i] == 64, c[i] == 128, c[i] == 192),
                                        Or(f[i] == 0, f[i] == 32), n[i] >= 0)))
+
+    @staticmethod
+    def all_nonneg(ex, s):
+        """every element >= 0 (uninterpreted predicate `nonneg`; homomorphism facts added here for literal concat shapes)"""
+        return nonneg(z_of(s))
 
     @staticmethod
     def seq(ex, *items):
